@@ -6,7 +6,7 @@
    that Model/Iter.v transcribes by hand (Apply, apply's pre/post frame, applyList). *)
 From Coq Require Import List String ZArith NArith Bool.
 Import ListNotations.
-From DV Require Import Model.Tree Model.Tables Model.Iter Proofs.IterProofs Gen.Universe Gen.WalkTbl Gen.ApplyTbl.
+From DV Require Import Model.Tree Model.Tables Model.Iter Proofs.IterProofs Model.ApplyTree Proofs.ApplyTreeProofs Proofs.ApplyWalk Gen.Universe Gen.WalkTbl Gen.ApplyTbl.
 Local Open Scope string_scope.
 Local Open Scope list_scope.
 
@@ -43,6 +43,46 @@ Theorem C14_methods_are_expected :
 Proof. vm_compute. reflexivity. Qed.
 
 (* Generic theorems ---------------------------------------------------------------------- *)
+
+(* The traversal (Model/ApplyTree.v: the frame of application.apply interpreted over the child table
+   above, corresponded on every run against the real Apply with callbacks that return false on
+   chosen nodes -- mismatch_C14_apply_tree), for every child table, tree and pair of callbacks: *)
+
+(* pre returns false: the node's children and its post are skipped *)
+Theorem C14_pre_false_skips_children_and_post :
+  forall tbl cb t parent name index, cb_pre cb (KNode (tid t)) = false ->
+  apply_tree tbl cb t parent name index = ([APre (KNode (tid t)) parent name index], false).
+Proof. exact pre_false_skips. Qed.
+
+(* post returns false: the traversal stops right there -- the last callback made is that post, every
+   post before it returned true (and the tree is still returned: the abort sentinel is recovered in
+   Apply, C14_text_is_astutils, and the correspondence compares the returned node) *)
+Theorem C14_post_false_stops_the_traversal :
+  forall tbl cb t evs, apply_root tbl cb t = (evs, true) -> ~ In AStuck evs ->
+  exists pre k, evs = pre ++ [APost k] /\ cb_post cb k = false /\ Forall (quiet cb) pre.
+Proof. exact post_false_stops. Qed.
+
+Theorem C14_complete_run_made_no_post_return_false :
+  forall tbl cb t evs, apply_root tbl cb t = (evs, false) -> Forall (quiet cb) evs.
+Proof. exact complete_run_all_posts_true. Qed.
+
+(* with callbacks that never decline, Apply makes its pre calls for exactly the nodes dst.Walk
+   visits, in Walk's order (C13: depth-first, source order) -- for the child tables re-extracted
+   from rewrite.go and walk.go, on every tree whose nodes have aligned cases in both tables and
+   children of the shapes the tables expect (aligned_tree: evaluated on every tree of a run) *)
+Theorem C14_pre_calls_follow_walk_order :
+  forall t, aligned_tree walk_tbl apply_tbl t = true ->
+  forall parent name index,
+  snd (apply_tree apply_tbl always t parent name index) = false /\
+  pre_ids (fst (apply_tree apply_tbl always t parent name index)) = visit_ids (walk walk_tbl (fun _ => false) t).
+Proof. intros t H. exact (apply_pre_calls_follow_walk walk_tbl apply_tbl t H). Qed.
+
+(* Parent, Name and Index always locate the current node inside its parent: the root under the
+   synthetic parent in field "Node"; every other node as the child its parent holds in the field
+   of that name, at that index when the field is a list; a nil child as the empty field *)
+Theorem C14_cursor_locates_the_node :
+  forall cb t, Forall (located t 0%N "Node" (-1)%Z) (fst (apply_root apply_tbl cb t)).
+Proof. intros cb t. apply apply_cursor_locates_node. vm_compute. reflexivity. Qed.
 
 (* On every list and at every position the slice programs are the list operations: Replace
    sets the current element, Delete removes it and decrements step, InsertAfter inserts right
@@ -103,6 +143,11 @@ Proof.
   intros x k. cbn. destruct (N.eqb x 2); [reflexivity|]. destruct (N.eqb x 3); reflexivity.
 Qed.
 
+Print Assumptions C14_pre_calls_follow_walk_order.
+Print Assumptions C14_pre_false_skips_children_and_post.
+Print Assumptions C14_post_false_stops_the_traversal.
+Print Assumptions C14_complete_run_made_no_post_return_false.
+Print Assumptions C14_cursor_locates_the_node.
 Print Assumptions C14_children_complete_and_named.
 Print Assumptions C14_children_match_astutil.
 Print Assumptions C14_children_match_walk.
